@@ -90,6 +90,11 @@ pub enum TraceEv {
     Branch,
     /// nothing answers (path length 0)
     Silent,
+    /// nothing answers in a round of a tracer that found its target (distance 3) in an earlier
+    /// round: the strategy carries the target distance over, so the round is published with path
+    /// length 3 and three awaited probes.  On an empty state this is what a user sees after
+    /// "target found; clear trace data; the network goes silent".
+    SilentKnown,
     /// failed probes
     Failed,
     /// 5-hop path with an unknown hop
@@ -98,7 +103,7 @@ pub enum TraceEv {
     Error,
 }
 
-pub const TRACE_EVENTS: &[TraceEv] = &[TraceEv::Path3, TraceEv::Path2, TraceEv::Branch, TraceEv::Silent, TraceEv::Failed, TraceEv::Path5, TraceEv::Error];
+pub const TRACE_EVENTS: &[TraceEv] = &[TraceEv::Path3, TraceEv::Path2, TraceEv::Branch, TraceEv::Silent, TraceEv::SilentKnown, TraceEv::Failed, TraceEv::Path5, TraceEv::Error];
 
 pub struct World {
     pub cfg: WorldCfg,
@@ -115,6 +120,10 @@ fn mmdb_path() -> std::path::PathBuf {
     ONCE.call_once(|| {
         let mut recs = vec![];
         for ttl in 1..=6u8 {
+            // hop 2 has no GeoIP record at all (as private / CGNAT hops in real databases)
+            if ttl == 2 {
+                continue;
+            }
             for sel in 0..3u8 {
                 if let IpAddr::V4(a) = hop_addr(sel, ttl) {
                     recs.push((a, geo(sel, ttl)));
@@ -274,12 +283,12 @@ impl World {
             TraceEv::Path3 => vec![c(0), c(0), c(0)],
             TraceEv::Path2 => vec![c(0), c(0)],
             TraceEv::Branch => vec![c(0), c(1), c(0)],
-            TraceEv::Silent => vec![Out::A, Out::A, Out::A],
+            TraceEv::Silent | TraceEv::SilentKnown => vec![Out::A, Out::A, Out::A],
             TraceEv::Failed => vec![Out::F, c(0), Out::F],
             TraceEv::Path5 => vec![c(0), Out::A, c(2), c(0), c(0)],
             TraceEv::Error => return None,
         };
-        let shape = Shape { first_ttl: f, outs, largest_ttl: None };
+        let shape = Shape { first_ttl: f, outs, largest_ttl: if ev == TraceEv::SilentKnown { Some(f + 2) } else { None } };
         let n = self.rounds_applied[trace];
         Some(stateexp::build_with(&shape, n, (n as u16).wrapping_mul(8), &|sel, ttl| hop_addr(sel, ttl)))
     }
